@@ -60,6 +60,9 @@ CLAIMED = {
  "C13": ("property-based testing over schedules: generated channel capacities and producer/consumer pacing scripts; differential against the same pipeline with unbounded channels; termination by progress watchdog",
          "Generated-schedule exploration: pipelines built from the public stage functions and the blocking-send helper with per-link capacities {0,1,2,7,64}, stalls at generated positions and early consumer drops; output and final lifecycle table are compared with the unbounded reference, and every stage has to terminate.",
          "interleavings are sampled via capacities/pacing, not enumerated; a race needing one specific preemption point can be missed; blocked = no progress on any link for 15 s", "4/C13"),
+ "C03": ("property-based testing and coverage-guided fuzzing: structured hostile generators, corpus mutation, text grammars through one chain function in isolated worker processes; libFuzzer targets with the same oracle (thorough)",
+         "Generated-input exploration of the whole ingestion/analysis chain with crash/overflow/allocation oracle (overflow checks and debug assertions on, counting allocator, worker processes so that aborts are attributed to the case); thorough tier adds libFuzzer campaigns (chain with and without plugins) whose artifacts are re-checked by the deterministic harness.",
+         "absence of crashes over all byte strings is never established; detector/sorter capacity hints are outside the allocation oracle; blf not driven", "4/C03"),
 }
 PENDING = {}
 def main():
